@@ -5,6 +5,7 @@ import (
 	"fmt"
 	"os"
 	"strings"
+	"sync/atomic"
 	"time"
 
 	"verif/sim/core"
@@ -51,9 +52,19 @@ func replayMain(args []string) int {
 		}
 		go func() { // same watchdog as the worker (CPU time): a hang brings this process down too
 			c0, w0 := cpuNanos(), time.Now()
+			lastProgress, ticks, lastWake := int64(-1), 0, time.Now()
 			for {
 				time.Sleep(500 * time.Millisecond)
-				if time.Duration(cpuNanos()-c0) > timeout || time.Since(w0) > 20*timeout {
+				slept := time.Since(lastWake)
+				lastWake = time.Now()
+				if pr := atomic.LoadInt64(&core.Progress); pr != lastProgress || slept > 5*time.Second {
+					// the simulation scheduled something, or this goroutine was held up: the clocks start again
+					lastProgress, ticks = pr, 0
+					c0, w0 = cpuNanos(), time.Now()
+					continue
+				}
+				ticks++
+				if (time.Duration(cpuNanos()-c0) > timeout || time.Since(w0) > 20*timeout) && ticks >= int(timeout/time.Second) {
 					fmt.Fprintf(os.Stderr, "HANG run=%d engine=%s after %v of CPU time\n", rf.Run, e.Name, timeout)
 					os.Exit(7)
 				}
